@@ -139,7 +139,61 @@ let str_obs = function
   | ObsAttrs -> Some "X-"
   | ObsNone -> None
 
+(* mut / sigf: the same extracted machine (run_scenario), driven by library operations instead of explicit ops.
+   mut <inputs> <cfg> <steps>: every input holds the private keys of its first m listed keys and is signed; each step is a
+     library method that changes committed fields (new digest id for every input) and re-signs (replace_signatures) all
+     inputs, or only the one it names (set_locktime_relative_*, sign_and_update(i)), or nothing (update_totals); a
+     merge_transaction step brings one more single-key input (present from the start in the model: only verdicts are
+     compared).  answer per step: M<verify()>/<consensus verdict on raw()>/<parse(raw()).verify()>
+   sigf <inputs> <lead> <form> <ctor>: the inputs rebuilt from public keys + signatures (the argument form and the leading
+     bytes of r / s are invisible to the model).  answer: F<verify()>/<raw verdict>/<parsed>/<signatures kept per input> *)
+let first_m_signers tokn =
+  match String.split_on_char '/' tokn with
+  | [_; m; ks] -> List.map key_of_tok (List.filteri (fun p _ -> p < int_of_string m) (split ',' ks))
+  | _ -> failwith "input"
+
+let bs b = if b then "T" else "F"
+
+let mut_run ins steps =
+  let toks = split ';' ins and steps = split ';' steps in
+  let is_mg s = String.length s >= 2 && String.sub s 0 2 = "mg" in
+  let nmg = List.length (List.filter is_mg steps) in
+  let legacy = List.for_all (fun t -> match String.split_on_char '/' t with
+      | ty :: _ -> List.mem ty ["pkh"; "pk"; "sh"] | _ -> false) toks in
+  let extra = List.init nmg (fun j -> Printf.sprintf "%s/1/%dc" (if legacy then "pkh" else "wpkh") (9 + j)) in
+  let all = toks @ extra in
+  let inputs = List.map input_of_tok all and kinds = kinds_of_inputs all in
+  let n = List.length all in
+  let idx = List.init n (fun i -> i) in
+  let sign_op r i = OSign (Some (nat_of_int i), r, true, first_m_signers (List.nth all i)) in
+  let epoch = ref 0 in
+  let es () = List.init n (fun _ -> BZ.of_int !epoch) in
+  let observe () = [OVerify; OProbe (AOther, n_outputs, es (), kinds); ORound] in
+  let step s = match String.split_on_char '/' s with
+    | "ut" :: _ -> observe ()
+    | ["su"; i] -> sign_op true (int_of_string i) :: observe ()
+    | ("lrb" | "lrt") :: i :: _ -> incr epoch; let e = OEpochs (es ()) in e :: sign_op true (int_of_string i) :: observe ()
+    | _ -> incr epoch; let e = OEpochs (es ()) in (e :: List.map (sign_op true) idx) @ observe () in
+  let ops = List.map (sign_op false) idx @ List.concat_map step steps in
+  let verdicts = List.filter_map (function
+      | ObsVerify (b, _, _) -> Some (bs b) | ObsBoth (_, _, r) -> Some (bs r) | _ -> None) (run_scenario inputs ops) in
+  let rec group = function
+    | a :: b :: c :: rest -> ("M" ^ a ^ "/" ^ b ^ "/" ^ c) :: group rest
+    | _ -> [] in
+  match group verdicts with [] -> "-" | l -> String.concat " " l
+
+let sigf_run ins =
+  let toks = split ';' ins in
+  let inputs = List.map input_of_tok toks in
+  let ops = List.mapi (fun i t -> OSign (Some (nat_of_int i), false, true, first_m_signers t)) toks @ [OCtor []; ORound] in
+  match List.filter_map (function ObsVerify (b, _, m) -> Some (b, m) | _ -> None) (run_scenario inputs ops) with
+  | [(b, m); (b2, _)] ->
+      "F" ^ bs b ^ "/" ^ bs b ^ "/" ^ bs b2 ^ "/" ^ String.concat "." (List.map (fun rows -> string_of_int (List.length rows)) m)
+  | _ -> "BADREQ"
+
 let dispatch = function
+  | ["mut"; ins; _cfg; steps] -> mut_run ins steps
+  | ["sigf"; ins; _lead; _form; _ctor] -> sigf_run ins
   | ["scn"; ins; ops] ->
       let kinds = kinds_of_inputs (split ';' ins) in
       let obs = run_scenario (List.map input_of_tok (split ';' ins)) (List.map (op_of_tok kinds) (split ';' ops)) in
